@@ -219,7 +219,7 @@ CHECKS.update({
              "every NeedImports list passes a de-duplication by resolved path; (live bindings) named/default imports are bound through an ImportBinding, "
              "exports that have a scope binding are published as getters and the stored value only on the no-binding edge, re-exports delegate; "
              "(termination) every cycle of the ready-module loop runs a module body and the runner removes its module from the pending table first. "
-             "All discharge on the current tree. That result and exports are equal for all supply orders is a matter of run-time values and not decided. The schedule of module bodies is not taken from the iteration order of a hash table (repaired, fix: commit). An export getter reads an imported binding through its import (repaired, fix: commit).",
+             "All discharge on the current tree. That result and exports are equal for all supply orders is a matter of run-time values and not decided. The schedule of module bodies is not taken from the iteration order of a hash table (repaired, fix: commit). An export getter reads an imported binding through its import (repaired, fix: commit). Two spellings of one file give one key: resolve() builds every ModulePath from the normaliser and the normaliser classifies every segment (R3b, C18 R1 + R2 run on the same facts).",
         ref="4/C09"),
 })
 
